@@ -181,6 +181,28 @@ func (r *Relay) SetDown(v bool) {
 	r.signal()
 }
 
+// Restart models a relay process that is restarted: the hashmail server keeps
+// its mailboxes in memory only, so every mailbox is forgotten together with
+// the messages queued in it, and every open stream breaks.
+func (r *Relay) Restart() {
+	r.mu.Lock()
+	defer r.mu.Unlock()
+	for id, s := range r.streams {
+		s.deleted = true
+		if s.reader != nil {
+			s.reader.closed = true
+			s.reader = nil
+		}
+		if s.writer != nil {
+			s.writer.closed = true
+			s.writer = nil
+		}
+		delete(r.streams, id)
+	}
+	r.event(Event{Op: "restart", Stream: "--restart--"})
+	r.signal()
+}
+
 // Snapshot returns copies of the recorded messages and events.
 func (r *Relay) Snapshot() (map[string][][]byte, []Event) {
 	r.mu.Lock()
